@@ -40,6 +40,8 @@ struct C<'a> {
     /// C16: the default route learnt from the router's advertisements is valid until this instant (the most recent
     /// advertisement decides: a shorter or zero router lifetime shortens or removes it)
     route_until: Option<i64>,
+    /// echo replies seen (to the probe of the application's own global address, builds with enough address slots)
+    echo_replies: u32,
 }
 
 impl<'a> C<'a> {
@@ -82,9 +84,30 @@ pub fn run(tape: &mut Tape, props: Props, thorough: bool, trace_on: bool) -> Out
     u.bind(7000).unwrap();
     let uh = node.sockets.add(u);
     let router_policy = tape.draw(4) as u8;
-    let desc = format!("slaac-node tcp-connecting={} router-policy={} (0 timely, 1 late, 2 never, 3 timely+unsolicited)", with_tcp, router_policy);
-    let mut c = C { tape, props, node, view, now: 0, stats: Stats::default(), hash: LogHash::new(), trace: vec![], trace_on, events: 0, inflight: vec![], seq: 0, router_policy, udp: uh, idle_polls: 0, route_until: None };
-    let r = body(&mut c, thorough);
+    // builds with room for it: the application configures a global address of its own inside a prefix the router is
+    // likely to advertise - it is the application's to remove, whatever happens to the advertised prefix
+    let app_addr: Option<IpAddr> = if cfg_value("IFACE_MAX_ADDR_COUNT", 2) >= 4 && tape.draw(2) == 0 {
+        let mut a = [0u8; 16];
+        a[..4].copy_from_slice(&[0x20, 0x01, 0x0d, 0xb8]);
+        a[5] = 1 + tape.draw(3) as u8;
+        a[15] = 0x53;
+        Some(IpAddr::V6(a))
+    } else {
+        None
+    };
+    if let Some(a) = &app_addr {
+        let cidr = smoltcp::wire::IpCidr::new(to_smol(a), 64);
+        node.iface.update_ip_addrs(|v| {
+            let _ = v.push(cidr);
+        });
+        view.addrs.push((*a, 64));
+    }
+    let desc = format!("slaac-node tcp-connecting={} router-policy={} (0 timely, 1 late, 2 never, 3 timely+unsolicited) app-address={:?}", with_tcp, router_policy, app_addr);
+    let mut c = C { tape, props, node, view, now: 0, stats: Stats::default(), hash: LogHash::new(), trace: vec![], trace_on, events: 0, inflight: vec![], seq: 0, router_policy, udp: uh, idle_polls: 0, route_until: None, echo_replies: 0 };
+    let mut r = body(&mut c, thorough);
+    if let (Ok(()), Some(a)) = (&r, app_addr) {
+        r = own_address_probe(&mut c, a);
+    }
     let nontrivial = c.stats.get("slaac.router-solicitations") >= 1 && c.stats.get("c13.early-probes") >= 2;
     c.stats.add("sim.seconds", (c.now / 1_000_000) as u64);
     Outcome { viol: r.err(), stats: c.stats, hash: c.hash, nontrivial, trace: c.trace, sim_us: c.now, events: c.events, cfg_desc: desc }
@@ -194,6 +217,11 @@ fn poll(c: &mut C, probe: bool) -> Result<(usize, usize), Violation> {
         if probe {
             continue;
         }
+        if let Some((_, ic)) = p.icmp6() {
+            if ic.typ == 129 && ic.rest[0] == 0x53 && ic.rest[1] == 0x53 {
+                c.echo_replies += 1;
+            }
+        }
         if let Some((ip, ic)) = p.icmp6() {
             if ic.typ == 133 {
                 c.stats.inc("slaac.router-solicitations");
@@ -227,6 +255,7 @@ fn poll(c: &mut C, probe: bool) -> Result<(usize, usize), Violation> {
                     body.extend_from_slice(&R_MAC);
                     let icmp = enc_icmp(true, &ll(0x77), &ip.src, 136, 0, [0x60, 0, 0, 0], &body);
                     let f = enc_eth(V_MAC, R_MAC, ETH_IPV6, &enc_ip(&ll(0x77), &ip.src, P_ICMP6, 255, &icmp));
+                    c.log(|| "router: neighbour advertisement".to_string());
                     c.seq += 1;
                     c.inflight.push((c.now + 1_000, c.seq, f));
                 }
@@ -234,6 +263,39 @@ fn poll(c: &mut C, probe: bool) -> Result<(usize, usize), Violation> {
         }
     }
     Ok((rx, counted))
+}
+
+/// C03's "still answers a well-formed request to one of its addresses", for the address the application configured
+/// next to the autoconfigured ones: the router pings it at the end of the run.
+fn own_address_probe(c: &mut C, a: IpAddr) -> Result<(), Violation> {
+    if !c.props.has("C03") {
+        return Ok(());
+    }
+    c.echo_replies = 0;
+    // the router falls silent first: every advertisement that changes the address list also flushes the neighbour
+    // cache, and the reply needs the router's hardware address (discovery is limited to one solicitation a second,
+    // shared with the connecting TCP socket)
+    c.inflight.clear();
+    c.now += 2_000_000;
+    poll(c, false)?;
+    for attempt in 0..12u8 {
+        let m = enc_icmp(true, &ll(0x77), &a, 128, 0, [0x53, 0x53, 0, attempt], b"own-address-probe");
+        let f = enc_eth(V_MAC, R_MAC, ETH_IPV6, &enc_ip(&ll(0x77), &a, P_ICMP6, 64, &m));
+        c.seq += 1;
+        c.inflight.push((c.now + 1_000, c.seq, f));
+        c.log(|| format!("router: echo request to {}", a));
+        for _ in 0..6 {
+            c.inflight.sort_by_key(|x| (x.0, x.1));
+            c.now = c.inflight.first().map(|x| x.0).unwrap_or(c.now + 100_000).max(c.now);
+            poll(c, false)?;
+            if c.echo_replies > 0 {
+                c.stats.inc("slaac.own-address-probes-answered");
+                return Ok(());
+            }
+        }
+        c.now += 1_100_000;
+    }
+    Err(viol("C03", "still-answers", "C03.wedged/slaac-node/configured-address-no-longer-answers", format!("the interface no longer answers an ICMPv6 echo request to {} - an address the application configured and never removed (12 attempts over more than 13 s with no other traffic, neighbour discovery answered); addresses now: {:?}", a, c.node.iface.ip_addrs())))
 }
 
 fn body(c: &mut C, thorough: bool) -> Result<(), Violation> {
@@ -294,8 +356,31 @@ fn body(c: &mut C, thorough: bool) -> Result<(), Violation> {
             };
             let save = c.now;
             c.now = t;
+            // (what an advertisement taken in by the previous poll adds is installed by the next poll, whenever that
+            // is - no frame can leave before that poll, so nothing observable is late: only what disappears counts)
+            let state_of = |c: &C| -> Vec<String> {
+                let mut v: Vec<String> = c.node.iface.ip_addrs().iter().map(|a| format!("{}", a)).collect();
+                if c.node.iface.routes().get_default_ipv6_route().is_some() {
+                    v.push("default-route".to_string());
+                }
+                v
+            };
+            let before = state_of(c);
             let (_, tx) = poll(c, true)?;
             c.stats.inc("c13.early-probes");
+            // an address or route lifetime that ends is a protocol timer too: a poll before the announced deadline
+            // (nothing delivered, no call in between) finds nothing to expire
+            let after = state_of(c);
+            // (judged only when the preceding poll took no frame in: what an advertisement withdraws is likewise
+            // applied by the poll after the one that received it)
+            if rx == 0 && before.iter().any(|x| !after.contains(x)) && on {
+                return Err(viol(
+                    "C13",
+                    "sufficiency",
+                    if pa.is_none() { "C13.early-expiry/slaac-node/poll_at-none" } else { "C13.early-expiry/slaac-node" },
+                    format!("poll_at at t={} us returned {:?}; an extra poll at t={} us, with no frame delivered and no socket call in between, removed one of the interface's addresses / its default route: {:?} -> {:?}", save, pa, t, before, after),
+                ));
+            }
             if tx > 0 && on {
                 return Err(viol(
                     "C13",
